@@ -36,12 +36,12 @@ CHECKS = {
     ),
     "C03": dict(
         claim="Held on N observed executions: for every generated legal history, every (writer, reader) version pair, four embeddings (struct, enum variant, between siblings of a v0 record, inside a chunk of an evolved record) and generated values, the library's result equals the documented outcome computed from the history alone (value, or the specific error variant and field name) and the consumption monitor finds nothing left unread where the data is framed. Two independent oracles (history table, strict reference decoder with the reader's schema) must agree with each other on every case, otherwise the run is inconclusive.",
-        note="Trusted: refmodel::evo::History::expected (the documented-outcome table) and the strict reference decoder; legal histories only (DESIGN §4.4); the embedded + stored-version-0 + removal combination is excluded (DESIGN §9-1).",
+        note="Trusted: refmodel::evo::History::expected (the documented-outcome table) and the strict reference decoder; legal histories only (DESIGN §4.4); the embedded + stored-version-0 + removal combination is excluded (DESIGN §9-1). Known finding D18 (header names inside a chunk the reader skips) is reported, not suppressed silently.",
         technique="history-level oracle + strict reference decoder over generated evolution histories x version pairs",
         level="exploration",
         quick=NATIVE,
         thorough=NATIVE + [("fresh", 1.0, {"only": "fresh"})],
-        rule="histories are drawn by a seeded generator of legal evolution steps (FieldAdded / FieldMadeOptional / FieldRemoved / FieldMadeTransient, length 1-5); every prefix becomes a compiled Rust type in four embeddings; all (w, r) pairs x generated values of version w are written by w and read by r; non-trivial = w != r, distinct by (reader type, bytes); every outcome class must be observed at least 10 times",
+        rule="histories are drawn by a seeded generator of legal evolution steps (FieldAdded / FieldMadeOptional / FieldRemoved / FieldMadeTransient, length 1-5); every prefix becomes a compiled Rust type in four embeddings; all (w, r) pairs x generated values of version w are written by w and read by r; non-trivial = w != r, distinct by (reader type, bytes); every outcome class must be observed at least 10 times; plus four fixed scenarios in which an older reader skips the chunk of an added field that holds a derived record (with / without names in its header, sibling before / after)",
         floors={"any": {"outcome:as_written": 10, "outcome:wrapped": 10, "outcome:unwrapped": 10, "outcome:none_is_error": 10,
                         "outcome:default_taken": 10, "outcome:removed_reads_none": 10, "outcome:removed_is_error": 10,
                         "outcome:newer_data_skipped": 10, "outcome:dropped_field_ignored": 10, "histories": 30}},
